@@ -346,4 +346,149 @@ theorem pack2_unpack2 (bs : List Nat) (n : Nat) (hb : ∀ b ∈ bs, b < 256)
       · have hm : n * 2 % 8 = 6 := by omega
         simp only [hr, hm, List.take, pack2]; congr 2; omega
 
+/-! ### the byte forms against the bit-stream specification -/
+
+theorem natBits_add (a b x : Nat) : natBits (a + b) x = natBits a x ++ natBits b (x / 2 ^ a) := by
+  induction a generalizing x with
+  | zero => simp [natBits]
+  | succ a ih =>
+    have : a + 1 + b = (a + b) + 1 := by omega
+    rw [this]
+    simp only [natBits, List.cons_append]
+    rw [ih (x / 2)]
+    congr 2
+    rw [Nat.pow_succ, Nat.mul_comm, Nat.div_div_eq_div_mul]
+
+theorem natBits_mod (k x : Nat) : natBits k (x % 2 ^ k) = natBits k x := by
+  induction k generalizing x with
+  | zero => rfl
+  | succ k ih =>
+    simp only [natBits]
+    congr 1
+    · rw [Nat.pow_succ, Nat.mul_comm, Nat.mod_mul_right_mod]
+    · rw [Nat.pow_succ, Nat.mul_comm, Nat.mod_mul_right_div_self]
+      exact ih (x / 2)
+
+theorem natBits_zero (k : Nat) : natBits k 0 = List.replicate k false := by
+  induction k with
+  | zero => rfl
+  | succ k ih => simp [natBits, ih, List.replicate_succ]
+
+theorem natBits_eq_of_mod (k x y : Nat) (h : x % 2 ^ k = y % 2 ^ k) : natBits k x = natBits k y := by
+  rw [← natBits_mod k x, h, natBits_mod]
+
+/-- one packed 4-bit byte: first element in the low nibble -/
+theorem natBits_pack4_byte (a b : Nat) :
+    natBits 8 (a % 16 + b % 16 * 16) = natBits 4 a ++ natBits 4 b := by
+  have h := natBits_add 4 4 (a % 16 + b % 16 * 16)
+  simp only [show (4 : Nat) + 4 = 8 from rfl, show (2 : Nat) ^ 4 = 16 from rfl] at h
+  rw [h]
+  congr 1
+  · exact natBits_eq_of_mod 4 _ _ (by simp only [show (2 : Nat) ^ 4 = 16 from rfl]; omega)
+  · exact natBits_eq_of_mod 4 _ _ (by simp only [show (2 : Nat) ^ 4 = 16 from rfl]; omega)
+
+/-- one packed 2-bit byte: first element in the two lowest bits -/
+theorem natBits_pack2_byte (a b c d : Nat) :
+    natBits 8 (a % 4 + b % 4 * 4 + c % 4 * 16 + d % 4 * 64)
+      = natBits 2 a ++ natBits 2 b ++ natBits 2 c ++ natBits 2 d := by
+  generalize hv : a % 4 + b % 4 * 4 + c % 4 * 16 + d % 4 * 64 = v
+  have h1 := natBits_add 2 6 v
+  have h2 := natBits_add 2 4 (v / 2 ^ 2)
+  have h3 := natBits_add 2 2 (v / 2 ^ 2 / 2 ^ 2)
+  simp only [show (2 : Nat) + 6 = 8 from rfl, show (2 : Nat) + 4 = 6 from rfl,
+    show (2 : Nat) + 2 = 4 from rfl, show (2 : Nat) ^ 2 = 4 from rfl] at h1 h2 h3
+  rw [h1, h2, h3]
+  have e0 : natBits 2 v = natBits 2 a :=
+    natBits_eq_of_mod 2 _ _ (by simp only [show (2 : Nat) ^ 2 = 4 from rfl]; omega)
+  have e1 : natBits 2 (v / 4) = natBits 2 b :=
+    natBits_eq_of_mod 2 _ _ (by simp only [show (2 : Nat) ^ 2 = 4 from rfl]; omega)
+  have e2 : natBits 2 (v / 4 / 4) = natBits 2 c :=
+    natBits_eq_of_mod 2 _ _ (by simp only [show (2 : Nat) ^ 2 = 4 from rfl]; omega)
+  have e3 : natBits 2 (v / 4 / 4 / 4) = natBits 2 d :=
+    natBits_eq_of_mod 2 _ _ (by simp only [show (2 : Nat) ^ 2 = 4 from rfl]; omega)
+  rw [e0, e1, e2, e3]
+  simp [List.append_assoc]
+
+theorem bitStream_pack4 : ∀ xs : List Nat,
+    bitStream (pack4 xs) = xs.flatMap (natBits 4) ++ List.replicate (4 * (xs.length % 2)) false
+  | [] => rfl
+  | [a] => by
+      have := natBits_pack4_byte a 0
+      simp only [bitStream, pack4, List.flatMap_cons, List.flatMap_nil, List.append_nil] at *
+      rw [this, natBits_zero]; rfl
+  | a :: b :: rest => by
+      have ih := bitStream_pack4 rest
+      have hl : (a :: b :: rest).length % 2 = rest.length % 2 := by simp; omega
+      simp only [bitStream, pack4, List.flatMap_cons, hl] at *
+      rw [ih, natBits_pack4_byte]; simp [List.append_assoc]
+
+theorem bitStream_pack2 : ∀ xs : List Nat,
+    bitStream (pack2 xs) = xs.flatMap (natBits 2)
+      ++ List.replicate (2 * ((4 - xs.length % 4) % 4)) false
+  | [] => rfl
+  | [a] => by
+      have := natBits_pack2_byte a 0 0 0
+      simp only [bitStream, pack2, List.flatMap_cons, List.flatMap_nil, List.append_nil,
+        Nat.zero_mod, Nat.zero_mul, Nat.add_zero] at *
+      rw [this, natBits_zero]; rfl
+  | [a, b] => by
+      have := natBits_pack2_byte a b 0 0
+      simp only [bitStream, pack2, List.flatMap_cons, List.flatMap_nil, List.append_nil,
+        Nat.zero_mod, Nat.zero_mul, Nat.add_zero] at *
+      rw [this, natBits_zero]; simp [List.append_assoc]
+  | [a, b, c] => by
+      have := natBits_pack2_byte a b c 0
+      simp only [bitStream, pack2, List.flatMap_cons, List.flatMap_nil, List.append_nil,
+        Nat.zero_mod, Nat.zero_mul, Nat.add_zero] at *
+      rw [this, natBits_zero]; simp [List.append_assoc]
+  | a :: b :: c :: d :: rest => by
+      have ih := bitStream_pack2 rest
+      have hl : (4 - (a :: b :: c :: d :: rest).length % 4) % 4 = (4 - rest.length % 4) % 4 := by
+        simp; omega
+      simp only [bitStream, pack2, List.flatMap_cons, hl] at *
+      rw [ih, natBits_pack2_byte]
+      simp [List.append_assoc]
+
+theorem bitStream_leBytes (w x : Nat) : bitStream (leBytes w x) = natBits (8 * w) x := by
+  induction w generalizing x with
+  | zero => rfl
+  | succ w ih =>
+    have h := natBits_add 8 (8 * w) x
+    have hm := natBits_mod 8 x
+    simp only [show (2 : Nat) ^ 8 = 256 from rfl] at h hm
+    have ih' := ih (x / 256)
+    simp only [bitStream, leBytes, List.flatMap_cons] at *
+    rw [ih', show 8 * (w + 1) = 8 + 8 * w by omega, h, hm]
+
+theorem bitStream_flatMap_leBytes (w : Nat) (xs : List Nat) :
+    bitStream (xs.flatMap (leBytes w)) = xs.flatMap (natBits (8 * w)) := by
+  induction xs with
+  | nil => rfl
+  | cons x xs ih =>
+    have := bitStream_leBytes w x
+    simp only [bitStream, List.flatMap_cons, List.flatMap_append] at *
+    rw [this, ih]
+
+/-- the canonical byte form is exactly the specified bit stream -/
+theorem bitStream_tobytes (bw : Nat) (xs : List Nat) (h : bw = 2 ∨ bw = 4 ∨ bw % 8 = 0) :
+    bitStream (tobytes bw xs) = elemStream bw xs (nbytes xs.length bw) := by
+  unfold tobytes elemStream nbytes
+  rcases h with h | h | h
+  · subst h
+    simp only [show ¬ (2 : Nat) = 4 by decide, if_false, if_true, bitStream_pack2]
+    congr 2; omega
+  · subst h
+    simp only [if_true, bitStream_pack4]
+    congr 2; omega
+  · have h4 : bw ≠ 4 := by omega
+    have h2 : bw ≠ 2 := by omega
+    simp only [h4, h2, if_false]
+    obtain ⟨k, hk⟩ : ∃ k, bw = 8 * k := ⟨bw / 8, by omega⟩
+    subst hk
+    rw [show 8 * k / 8 = k by omega, bitStream_flatMap_leBytes]
+    have : 8 * ((xs.length * (8 * k) + 7) / 8) - xs.length * (8 * k) = 0 := by
+      have : xs.length * (8 * k) = 8 * (xs.length * k) := Nat.mul_left_comm _ _ _
+      omega
+    rw [this]; simp
+
 end IrVerif.Pack
